@@ -76,6 +76,18 @@ def run_compute(shard, mon, S, table):
                     continue
                 produced += 1
                 check_valid(mon, S, o.value, cc, table, w)
+        for carg in (cc.lower(), cc + " ", " " + cc, cc[0] + cc[1].lower()):
+            bank, acct, branch = val("bank_code"), val("account_code"), val("branch_code")
+            for name, fn in (("generate", lambda: S.IBAN.generate(carg, bank_code=bank, account_code=acct, branch_code=branch)),
+                             ("random", lambda: S.IBAN.random(carg, random=Random(f"cc/{cc}"))),
+                             ("from_components", lambda: S.IBAN.from_bban(carg, S.BBAN.from_components(carg, bank_code=bank, account_code=acct, branch_code=branch)))):
+                o = observe(fn)
+                mon.ev()
+                mon.tally("non_canonical_country_code_calls")
+                if o.ok:
+                    check_valid(mon, S, o.value, cc, table, {"country_arg": carg, "via": name, "bank_code": bank, "account_code": acct, "branch_code": branch})
+                elif not judge.is_lib_exc(o.exc):
+                    mon.viol(f"escape:{name}:{o.exc_name}", {"country_arg": carg}, "library error", o.brief())
         mon.tally("produced_" + cc, produced)
         mon.sample({"country": cc, "generated": str(o.value) if o.ok else None})
 
